@@ -14,7 +14,7 @@ from hypothesis import strategies as st
 CELL_POOL = ['', 'a', 'b', 'ab', 'a b', 'B', '10', '9', '100', 'x,y', ' a', 'a!', 'k', 'zz', 'A;B', 'q"r', "it's", 'é', 'a%', '_']
 JS_SAFE_CELL_POOL = ['', 'a', 'b', 'ab', 'a b', 'B', '10', '9', '100', 'x,y', ' a', 'a!', 'k', 'zz', 'A;B', 'q"r', "it's", 'a%', '_']
 NAME_POOL = ['k', 'v', 'name', 'x1', '_id', 'Col', 'zz', 'w', 'val', 'key_2', 'Total', 'n', 'a_1', 'k2', 'v10', 'name2']
-LIT_POOL = ['', 'a', 'b', 'x', 'a b', ',', ';', 'zz', '10', '-', 'A', '%', 'a%', '_', '(', ')', '[x]', '#', 'é', '$$', '$&', 'p$$q', '$1', '{}', '%s']
+LIT_POOL = ['', 'a', 'b', 'x', 'a b', ',', ';', 'zz', '10', '-', 'A', '%', 'a%', '_', '(', ')', '[x]', '#', 'é', '$$', '$&', 'p$$q', '$1', '{}', '%s', 'a\tb', '\t', 'a  b', ' a ', '\x0b', 'a\xa0b']
 ALIAS_POOL = ['x', 'y', 'res', 'Total', 'c_1', 'zed', 'alias9']
 
 AGG_FUNCS = ['COUNT', 'MIN', 'MAX', 'SUM', 'AVG', 'VARIANCE', 'MEDIAN', 'ARRAY_AGG', 'ANY_VALUE']
@@ -116,7 +116,11 @@ def sfield(ctx, **kw):
 def strlit(ctx, pool=None):
     s = ctx.draw(st.sampled_from(pool or LIT_POOL))
     q = ctx.draw(st.sampled_from(["'", '"']))
-    return {'py': py_str(s, q), 'js': js_str(s, q), 'name': None, 'ty': 'str', 'lit': s}
+    py, js = py_str(s, q), js_str(s, q)
+    if '\t' in s and '\\' not in s and ctx.draw(st.booleans()):
+        # a raw TAB character inside the quotes (not the two-character escape)
+        py, js = py.replace('\\t', '\t'), js.replace('\\t', '\t')
+    return {'py': py, 'js': js, 'name': None, 'ty': 'str', 'lit': s}
 
 
 def mk(py, js, ty):
@@ -374,7 +378,7 @@ def st_join_table(draw, max_rows, max_width, pool, first_full, allow_empty_p=10)
     for i in range(nrows):
         w = width
         if ragged and not (first_full and i == 0):
-            w = draw(st.integers(1, width))
+            w = draw(st.integers(0 if draw(st.integers(0, 4)) == 0 else 1, width))   # now and then a record without any field (only NR keys remain usable)
         row = []
         for j in range(w):
             if j < 2:
